@@ -119,9 +119,7 @@ func (e *Engine) VerifyFunction(fn *ssa.Function, con *Contract) (v *FV) {
 		} else {
 			v.assume("true", v.typeFacts(name, p.Type()))
 		}
-		if s == "Slice" {
-			v.assume("true", fmt.Sprintf("(<= (sl_arr %s) %s)", name, v.n0))
-		}
+		v.assume("true", v.preexistFacts(name, p.Type()))
 		st.env[p.Name()] = tv
 	}
 	for _, fvv := range fn.FreeVars {
